@@ -1,8 +1,12 @@
 package main
 
 import (
+	"crypto/hmac"
 	"crypto/sha1"
 	"crypto/sha256"
+	"encoding/base64"
+	"encoding/binary"
+	"fmt"
 	"math/big"
 
 	otr3 "github.com/coyim/otr3"
@@ -103,4 +107,58 @@ func refAKEKeysFor(s *big.Int) refAKEKeys {
 	k.c, k.cp = cc[:16], cc[16:]
 	k.m1, k.m2, k.m1p, k.m2p = h2(0x02), h2(0x03), h2(0x04), h2(0x05)
 	return k
+}
+
+// ---- the reference as a sender: a data message built from the sender's secrets alone, as the specification
+// prescribes it (no padding, nothing disclosed); the sending conversation itself is not touched ----
+func refBuildData(c *otr3.Conversation, flags byte, text []byte, tlvs []byte) (msg []byte, sk, rk uint32, ctr uint64, ok bool) {
+	km := otr3.VerifKeys(c)
+	st := otr3.VerifSnapshot(c)
+	if km.OurKeyID == 0 || len(km.OurPreviousPriv) == 0 || km.OurPreviousPub == nil || km.TheirCurrentPub == nil || km.OurCurrentPub == nil {
+		return nil, 0, 0, 0, false
+	}
+	sk, rk = km.OurKeyID-1, km.TheirKeyID
+	ctr = otr3.VerifNextCounter(c)
+	keys := refSessionKeysFor(km.OurPreviousPriv, km.OurPreviousPub, km.TheirCurrentPub)
+	payload := append([]byte{}, text...)
+	if len(tlvs) > 0 {
+		payload = append(append(payload, 0), tlvs...)
+	}
+	ctr8 := make([]byte, 8)
+	binary.BigEndian.PutUint64(ctr8, ctr)
+	enc := refAESCTR(keys.sendAES, ctr8, payload)
+	word := func(x uint32) []byte { b := make([]byte, 4); binary.BigEndian.PutUint32(b, x); return b }
+	hdr := []byte{0, byte(st.Version), 3}
+	if st.Version == 3 {
+		hdr = append(append(hdr, word(st.OurTag)...), word(st.TheirTag)...)
+	}
+	body := []byte{flags}
+	body = append(body, word(sk)...)
+	body = append(body, word(rk)...)
+	body = append(body, refMPI(km.OurCurrentPub)...)
+	body = append(body, ctr8...)
+	body = append(append(body, word(uint32(len(enc)))...), enc...)
+	mac := hmac.New(sha1.New, keys.sendMAC)
+	mac.Write(hdr)
+	mac.Write(body)
+	all := append(append(append([]byte{}, hdr...), body...), mac.Sum(nil)...)
+	all = append(all, 0, 0, 0, 0)
+	return []byte("?OTR:" + base64.StdEncoding.EncodeToString(all) + "."), sk, rk, ctr, true
+}
+
+// Forge: the reference sender acts for party from; the message is logged as one of from's outputs
+func (s *Sys) Forge(from int, coqCall string, flags byte, text []byte, tlvs []byte) bool {
+	p := s.ps[from]
+	msg, sk, rk, ctr, ok := refBuildData(p.c, flags, text, tlvs)
+	if !ok {
+		return false
+	}
+	st := otr3.VerifSnapshot(p.c)
+	p.outs = append(p.outs, msg)
+	p.pieces = append(p.pieces, [][]byte{msg})
+	s.ops = append(s.ops, fmt.Sprintf("OForge %d %d (%s)", from, s.now, coqCall))
+	s.obs = append(s.obs, L(L(N(4), N(st.Version), N(int(flags)), NU(uint64(sk)), NU(uint64(rk)), NU(ctr))))
+	s.trace = append(s.trace, fmt.Sprintf("Forge(%d, flags=%d, text=%q, tlvs=%x)", from, flags, text, tlvs))
+	s.calls = append(s.calls, callRec{who: from, human: "probe"})
+	return true
 }
